@@ -346,6 +346,107 @@ def _o5_verdict(ctx, ka, issue):
     return 'ok', '%s accumulates into `%s` relying on zero-initialised storage: every origin (%d allocation/call sites) provides zeros or defined data' % (fi.qualname, name, zero)
 
 
+def rule_out_defined(ctx):
+    """O6: an output array of a forward kernel is read over its whole coefficient axis before the kernel has defined it
+    over that axis.  If that array can arrive non-zero (a user's `out`, a re-used work buffer) the result depends on what
+    an earlier call left in the buffer."""
+    r = RuleResult('C06.out-defined', 'forward kernels do not read an output array over its whole coefficient axis before defining it over that '
+                                      'axis, unless every buffer that reaches the parameter is freshly allocated with zeros (origins followed '
+                                      'through the call sites with the E1 argument values)')
+    m = ctx.model
+    ci = m.cls('RawAlgorithmsMixIn')
+    if ci is None:
+        raise AnalysisError('E2.anchor', ALGO, 'class RawAlgorithmsMixIn vanished')
+
+    def axis0(sl):
+        return sl.elts[0] if isinstance(sl, ast.Tuple) and sl.elts else sl
+
+    def full(a0):
+        return (isinstance(a0, ast.Slice) and a0.lower is None and a0.upper is None and a0.step is None) \
+            or (isinstance(a0, ast.Constant) and a0.value is Ellipsis)
+
+    n_arrays = 0
+    cu = m.cls('UTPM')
+    funcs = sorted(ci.methods.items()) + sorted((n_, f_) for n_, f_ in (cu.methods.items() if cu else []) if 'out' in f_.params + f_.kwonly)
+
+    def arr(e):
+        # `x_data` or `X.data`
+        if isinstance(e, ast.Name):
+            return e.id, e.id
+        if isinstance(e, ast.Attribute) and e.attr == 'data' and isinstance(e.value, ast.Name):
+            return e.value.id + '.data', e.value.id
+        return None, None
+
+    for name, fi in funcs:
+        if name.startswith('_pb_') or name.startswith('pb_') or name.endswith('_pullback') or name in ACCUMULATE_BY_CONTRACT:
+            continue
+        params = set(fi.params) | set(fi.kwonly)
+        alias = {}
+        for st in walk_no_nested(fi.node):
+            if isinstance(st, ast.Assign) and isinstance(st.value, ast.Name) and st.value.id in params:
+                for t in st.targets:
+                    for e in (t.elts if isinstance(t, (ast.Tuple, ast.List)) else [t]):
+                        if isinstance(e, ast.Name):
+                            alias[e.id] = st.value.id
+            if isinstance(st, ast.Assign) and isinstance(st.value, ast.Subscript) and isinstance(st.value.value, ast.Name) \
+                    and st.value.value.id in params and isinstance(st.value.slice, ast.Constant) and isinstance(st.targets[0], ast.Name):
+                alias[st.targets[0].id] = st.value.value.id
+        stored = set()
+        for st in walk_no_nested(fi.node):
+            if isinstance(st, (ast.Assign, ast.AugAssign)):
+                for t in (st.targets if isinstance(st, ast.Assign) else [st.target]):
+                    if isinstance(t, ast.Subscript) and arr(t.value)[1] is not None and (arr(t.value)[1] in params or arr(t.value)[1] in alias):
+                        stored.add(arr(t.value)[0])
+        # statement order: reads of a statement happen before its store
+        stmt_line = {}
+        for st in walk_no_nested(fi.node):
+            if isinstance(st, ast.stmt):
+                for n in ast.walk(st):
+                    if isinstance(n, ast.Subscript):
+                        stmt_line[id(n)] = max(stmt_line.get(id(n), 0), st.lineno)      # innermost enclosing statement
+        for P in sorted(stored):
+            n_arrays += 1
+            events = []
+            for n in walk_no_nested(fi.node):
+                if isinstance(n, ast.Subscript) and arr(n.value)[0] == P:
+                    a0 = axis0(n.slice)
+                    ln = stmt_line.get(id(n), n.lineno)
+                    if isinstance(n.ctx, ast.Store):
+                        events.append((ln, 1, 'def-all' if full(a0) else 'def', n))
+                    elif full(a0):
+                        events.append((ln, 0, 'read-all', n))
+            events.sort(key=lambda e: (e[0], e[1]))
+            first_read = None
+            for ln, _, k, n in events:
+                if k == 'def-all':
+                    break
+                if k == 'read-all':
+                    first_read = n
+                    break
+            base = alias.get(P.split('.')[0], P.split('.')[0])
+            if first_read is None:
+                r.ok(construct='%s:%s' % (fi.qualname, P), sample='%s: `%s` is defined over the coefficient axis before any whole-axis read' % (fi.qualname, P))
+                continue
+            public = not fi.name.startswith('_')
+            origins = _buffer_origins(ctx, fi, base) if base in params else [('dirty', 'local array')]
+            bad = sorted({t for k, t in origins if k in ('user', 'dirty')})
+            other = sorted({t for k, t in origins if k == 'other'})
+            if bad:
+                r.bad(Finding('C06.out-defined', fi.fq, '%s:%s' % (P, norm(first_read)[:60]),
+                              '%s reads `%s` over its whole coefficient axis before defining it; the buffer can be non-zero on entry: it reaches '
+                              '`%s` from %s - the result then depends on what an earlier call left in it'
+                              % (fi.qualname, norm(first_read)[:60], base, '; '.join(bad[:3])), fi.file, first_read.lineno))
+            elif other:
+                r.note('%s reads `%s` before defining it; origins of the buffer not all resolved: %s' % (fi.qualname, norm(first_read)[:50], other[:3]))
+                r.ok(construct='%s:%s' % (fi.qualname, P))
+            else:
+                r.ok(construct='%s:%s' % (fi.qualname, P), nontrivial=True,
+                     sample='%s reads `%s` before defining it, but every call site passes a fresh zero buffer (%d sites)' % (fi.qualname, norm(first_read)[:40], len(origins)))
+    r.floor = 40
+    r.stats = {'output_arrays': n_arrays}
+    return r
+
+
 def _existence_guard(ka, st):
     """`if D > c:` (also `D >= c+1`, `c < D`) with no else-branch whose body touches graded arrays at constant coefficient
     indices only, the largest being c: the guard says exactly that this coefficient exists, so lower orders cannot
